@@ -15,7 +15,7 @@ func init() {
 		RealParts:  []string{"all of neat/genetics incl. both epoch executors and every operator (through the verif export file)", "Genome.Genesis / network construction", "math/rand seeded from the tape"},
 		StubParts:  []string{"fitness assignment", "innovation registry in about half of the operator histories (reference registry), the real Population in the rest", "goroutine choice for parallel-executor worlds"},
 		Assumes:    []string{"start genomes are well-formed, non-modular, with at least one gene and consecutive trait ids", "NewPopulationRandom worlds whose constructor already emits a gene-less genome are skipped (precondition)"},
-		ProbeNames: []string{"probe.op.mutateAddNode.ok", "probe.op.mutateAddLink.ok", "probe.op.mutateConnectSensors.ok", "probe.op.mateSinglePoint", "probe.op.mateMultipoint", "probe.op.mateMultipointAvg", "probe.interspecies_parents", "probe.genome.recurrent", "probe.genome.disabled", "probe.random_world", "probe.parallel_epoch"},
+		ProbeNames: []string{"probe.op.mutateAddNode.ok", "probe.op.mutateAddLink.ok", "probe.op.mutateConnectSensors.ok", "probe.op.mateSinglePoint", "probe.op.mateMultipoint", "probe.op.mateMultipointAvg", "probe.interspecies_parents", "probe.genome.recurrent", "probe.genome.disabled", "probe.random_world", "probe.parallel_epoch", "probe.checkpoint_restore"},
 	})
 }
 
@@ -163,6 +163,16 @@ func scenarioC01(c *RunCtx) {
 				c.Count("probe.parallel_epoch")
 			}
 			checkPop(fmt.Sprintf("after epoch %d", gen))
+			if t.Chance("checkpoint", 1, 8) {
+				var cerr error
+				c.LibSoft("checkpoint", func() { cerr = w.Checkpoint() })
+				if cerr != nil {
+					c.Skip("checkpoint-error")
+				}
+				c.Count("probe.checkpoint_restore")
+				c.Op("checkpoint: population written and read back after epoch %d", gen)
+				checkPop(fmt.Sprintf("after the restore that follows epoch %d", gen))
+			}
 		}
 		// operator history on copies of the current population
 		k := (opsLeft + phases - 1 - ph) / (phases - ph)
